@@ -3,7 +3,7 @@ from . import tree
 
 FOCUS = tree.STEP_CLAUSES | {"rejected_but_must_succeed"}
 QUICK = {"names": ["A", "B"], "objs": 3, "nvals": 1, "kids": 2, "held": 1, "state_fraction": 0.05, "extra_paths": 1, "walks": {"names": ["A", "B", "C"], "objs": 6, "kids": 4, "held": 2, "num": 140, "depth": 40}, "only": "accepted"}
-THOROUGH = {"names": ["A", "B"], "objs": 3, "nvals": 1, "kids": 2, "held": 1, "state_fraction": 0.08, "extra_paths": 1, "walks": {"names": ["A", "B", "C"], "objs": 6, "kids": 4, "held": 2, "num": 1500, "depth": 60}, "only": "accepted"}
+THOROUGH = {"names": ["A", "B"], "objs": 3, "nvals": 1, "kids": 2, "held": 1, "state_fraction": 0.06, "extra_paths": 1, "walks": {"names": ["A", "B", "C"], "objs": 6, "kids": 4, "held": 2, "num": 500, "depth": 50}, "only": "accepted"}
 
 
 def run(ctx):
